@@ -28,8 +28,9 @@ type ScenCfg struct {
 	Window   int      `json:"window"`
 	Policy   string   `json:"policy"`
 	PCTDepth int      `json:"pct_depth,omitempty"`
-	Hooks    string   `json:"hooks,omitempty"`    // "", "post", "both"
-	VRFMode  string   `json:"vrf_mode,omitempty"` // "opt" (server.WithVRFs) or "late" (AddNetworkInstance after New)
+	Hooks    string   `json:"hooks,omitempty"`     // "", "post", "both"
+	HookMute bool     `json:"hook_mute,omitempty"` // hooks registered for their locking only (concurrent families): not judged
+	VRFMode  string   `json:"vrf_mode,omitempty"`  // "opt" (server.WithVRFs) or "late" (AddNetworkInstance after New)
 	FullPayl bool     `json:"full_payloads,omitempty"`
 	GetEvery int      `json:"get_every,omitempty"`
 	// Bystander: a second, negotiated, idle session is open throughout and must stay undisturbed.
